@@ -9,7 +9,7 @@ CHECKS = {
     "C01": dict(
         category="translation_validation",
         technique="runtime monitor: differential execution of generated programs (real compiler + lli) against an independent reference interpreter, with layout metamorphosis",
-        text="Every generated well-typed, UB-free program (all integer widths, control flow, pointers, views, structs, words, constants) is compiled by the real compiler in several layouts, executed through lli and compared byte for byte with a reference interpreter written from the docs; evidence lists programs, variants and the type x operator x construct cells observed.",
+        text="Deterministic literal-window programs (values with the top bit of a narrower width set, in decimal, hexadecimal and binary spelling) and every generated well-typed, UB-free program (all integer widths, control flow, pointers, views, structs, words, constants) is compiled by the real compiler in several layouts, executed through lli and compared byte for byte with a reference interpreter written from the docs; evidence lists programs, variants and the type x operator x construct cells observed.",
         note="Trusted: reference interpreter pv/interp.py (docs-derived), lli-14. Decides the property only for the generated class; shapes the unchanged tree mishandles are kept as fixed probes (known findings).",
         design="5 C01"),
     "C02": dict(
@@ -33,7 +33,7 @@ CHECKS = {
     "C05": dict(
         category="exploration",
         technique="runtime monitor: exhaustive small-scope enumeration compared with a lexical rule table and an independent path-based definite-declaration analysis; accepted bodies executed",
-        text="All C04-legal bodies with <= 4 / <= 5 statement nodes over declarations, uses, labels, (conditional) gotos and blocks, with parameters/constants of the same names, each also with scope-opening noise (nested empty blocks, empty ifs, array literals) inserted at random and, for every 16th body, at every position; a multi-goto family and a skip-then-noise family; plus random bodies: an accepted program must have no CFG path reaching a use without its declaration, E402/E422/E482 must follow the documented rules, and accepted programs must compute what the reference interpreter computes.",
+        text="All C04-legal bodies with <= 4 / <= 5 statement nodes over declarations, uses, labels, (conditional) gotos and blocks, with parameters/constants of the same names, each also with scope-opening noise (nested empty blocks, empty ifs, array literals) inserted at random and, for every 16th body, at every position; a multi-goto family (also with gotos inside nested blocks with locals), a two-label family and a skip-then-noise family; plus random bodies: an accepted program must have no CFG path reaching a use without its declaration, E402/E422/E482 must follow the documented rules, and accepted programs must compute what the reference interpreter computes.",
         note="After the first diagnostic on an identifier the compiler poisons it, so only the textually first violation per name is required; for gotos no path reaches, E482 is optional.",
         design="5 C05"),
     "C06": dict(
@@ -45,13 +45,13 @@ CHECKS = {
     "C07": dict(
         category="exploration",
         technique="runtime monitor: type-rule assertions over the resolved tree of every accepted input (hooked in the worker) plus a verdict table of single type-breaking edits",
-        text="(1) generated well-typed programs must be accepted; (2) one program per (edit kind x primitive type pair x operator) - operand swap, operator outside its class, assignment/initialisation/argument/return mismatch (also with an element, a nested element, a member or a pointee as the target), argument count, missing/excess &, illegal cast - must be rejected with its documented E5xx code; (3) a monitor walks the resolved tree of every accepted input (generated, corpus, import closures, accepted mutants) and asserts identical operand/assignment/argument/return types, operator classes, legal cast pairs and that only array/struct view coercions are implicit.",
+        text="(1) generated well-typed programs must be accepted; (2) one program per (edit kind x primitive type pair x operator) - operand swap, operator outside its class, assignment/initialisation/argument/return mismatch (also with an element, a nested element, a member or a pointee as the target; arrays to views / slice pointers of another element type; mismatching calls nested inside coerced arguments; inner array lengths), argument count, missing/excess &, illegal cast - must be rejected with its documented E5xx code; (3) a monitor walks the resolved tree of every accepted input (generated, corpus, import closures, accepted mutants) and asserts identical operand/assignment/argument/return types, operator classes, legal cast pairs and that only array/struct view coercions are implicit.",
         note="The monitor compares types structurally and is independent of the typer. Recorded-not-judged: arithmetic on char8, ! on bool, char8/u8 aliasing of string arrays.",
         design="5 C07"),
     "C08": dict(
         category="exploration",
         technique="runtime monitor: non-interference checker over bracketed call traces of executed generated programs, plus a verdict table",
-        text="A table of programs writes through every parameter kind, to constants, copies whole arrays/views/structs (also after a call earlier in the statement), takes addresses of immutable things, passes pointer arguments with and without & (also to pointers to endless arrays): verdicts must match E530-E533/E512/E513. Generated programs bracket every call with prints of all caller locals; after execution a checker that does not use the reference interpreter asserts that a variable changed across a call only if the caller wrote & on it (or on a pointer that may point to it).",
+        text="A table of programs writes through every parameter kind, to constants, copies whole arrays/views/structs (also after a call earlier in the statement), takes addresses of immutable things, passes pointer arguments with and without & (also to pointers to endless arrays): verdicts must match E530-E533/E512/E513; the rejecting rows are repeated inside a block, a then-block, an else-block, an else-if arm, the else after an else-if and a nested else-if, and with the address wrapped in a bit cast. Generated programs bracket every call with prints of all caller locals; after execution a checker that does not use the reference interpreter asserts that a variable changed across a call only if the caller wrote & on it (or on a pointer that may point to it).",
         note="Points-to sets of the generated caller are flow-insensitive (sound over-approximation of the legitimate channel).",
         design="5 C08"),
     "C09": dict(
@@ -63,7 +63,7 @@ CHECKS = {
     "C10": dict(
         category="exploration",
         technique="runtime monitor: metamorphic const-vs-var evaluation, array-length observation through every passing mode, and measured member-address strides",
-        text="Random constant expressions (all integer types, arithmetic, bitwise, shifts, casts, forward/backward references, size-of) are printed as `const` and as local `var` and compared with each other and with the reference interpreter; arrays `[N]T` for N = 0..8 from several constant expressions are observed through |a|, view, slice pointer, second-level calls and `&[N]T`, with |:[N]T| = N*|:T|; |:T| (inside functions and as module constants declared anywhere among the structures) is compared with the measured stride between consecutive members of type T; oversized words must raise E380; a quarter of the constant programs are compiled as the second module after an unrelated module with constants of its own.",
+        text="Random constant expressions (all integer types, arithmetic, bitwise, shifts, casts, forward/backward references, size-of) are printed as `const` and as local `var` and compared with each other and with the reference interpreter; arrays `[N]T` for N = 0..8 from several constant expressions are observed through |a|, view, slice pointer, second-level calls and `&[N]T`, with |:[N]T| = N*|:T|; |:T| (inside functions and as module constants declared anywhere among the structures) is compared with the measured stride between consecutive members of type T; oversized words must raise E380; size-of relations (|:[N]T| = N*|:T|, pointer = usize, structure >= members) are read off the folded IR for the native and the --wasm target; a quarter of the constant programs are compiled as the second module after an unrelated module with constants of its own.",
         note="Ground truth for layout is measured (addresses printed by the running program), not modelled. Undersized words are recorded, not judged (the property only names words larger than declared).",
         design="5 C10"),
     "C11": dict(
